@@ -205,12 +205,16 @@ CORPUS_MODULES = {
              "blockval": [(0,), (5,), (6,), (0x7fffffff,), (0x80000000,)],
              "indirect": [(0, 4, 5), (1, 4, 5), (2, 4, 5), (3, 4, 5), (4, 4, 5)],
              "global": [(3,), (0,), (100,)], "tee": [(4,), (0,), (0xffffffff,)],
-             "sum": [(16, 16), (16, 21), (16, 40), (0, 100), (21, 37)], "unreachable": [(0,), (1,), (2,)],
+             "sum": [(16, 16), (16, 21), (16, 37), (21, 37), (30, 37)],      # inside the data segment
+             "unreachable": [(0,), (1,), (2,)],
              "nested_loop": [(0,), (1,), (9,), (40,)]}),
     "multi_same": ([CF("multi", ["i32", "i32"], "i32"), CF("multi_ret", ["i32", "i32"], "i32")],
                    {"multi": [(1, 2), (0, 0), (100, 7)], "multi_ret": [(1, 2), (0, 0), (100, 7)]}),
     "multi_mixed": ([CF("multi", ["i32", "i64"], "i64")], {"multi": [(3, 10), (0, 0)]}),
     "brif_result": ([CF("pick", ["i32"], "i32")], {"pick": [(0,), (1,), (7,)]}),
+    "lastins": ([CF("unreachable_in_else", ["i32"], "i32"), CF("unreachable_in_else1", ["i32"], "i32")],
+                {"unreachable_in_else": [(1,), (2,), (0,)], "unreachable_in_else1": [(1,), (0,)]}),
+    "ret_extra": ([CF("ret_extra", ["i32"], "i32")], {"ret_extra": [(0,), (1,)]}),
 }
 
 
@@ -221,6 +225,8 @@ def ctl_class(tag, f, args, ref):
         return "multi-value:" + ("explicit-return" if f.name.endswith("_ret") else "fallthrough-return")
     if f.name == "sum":
         return "data-segment:backslash-byte"
+    if tag == "lastins":
+        return "function-end:nested-unreachable-last"
     return "ctl:%s" % f.name
 
 
@@ -238,7 +244,8 @@ def corpus_module(ctx, h, tag, flavours, dist, nontrivial):
     m.tag, m.dir, m.rows, m.index = tag, d, funcs, dict((f.name, i) for i, f in enumerate(funcs))
     ref = run_ref(ctx, h, m, calls, "n")
     if rc != 0:
-        key = {"multi_mixed": "multi-value:fallthrough-return", "brif_result": "br_if:target-with-result"}.get(tag, "ctl:%s:translation-fails" % tag)
+        key = {"multi_mixed": "multi-value:fallthrough-return", "brif_result": "br_if:target-with-result",
+               "ret_extra": "return:extra-stack-values"}.get(tag, "ctl:%s:translation-fails" % tag)
         ctx.violation(key, "wat2c fails on corpus module %s.wat (%s) although the embedded runtime runs it: f_%s%s -> %s" % (
             tag, out.strip()[:200], calls[0][0].name, calls[0][1], ref[0]), {"wat": wat, "wat2c": out.strip(), "wasm": ref[:4]})
         return
